@@ -46,7 +46,9 @@ def cases(ctx):
     for d in secrets:
         msg = G.rbytes(rng, 32); aux = rng.choice([bytes(32), G.rbytes(rng, 32)])
         ctx.count('sign')
-        yield Case(f'schnorr_sign {hx(msg)} {hx(d.to_bytes(32, "big"))} {hx(aux)}', 'ms', nontrivial=True, tag='sign',
+        # a few also through the generated (translated) schnorr_sign, interpreted (about a second each)
+        gk = 'gms' if len(sigs) < ctx.n(6, 40) else 'ms'
+        yield Case(f'schnorr_sign {hx(msg)} {hx(d.to_bytes(32, "big"))} {hx(aux)}', gk, nontrivial=True, tag='sign',
                    spec=lambda ans, msg=msg, d=d, aux=aux: (f's:bip340_sign {hx(msg)} {hx(d.to_bytes(32, "big"))} {hx(aux)}', ans))
         sigs.append((msg, d, aux))
     # leading zero bytes in every byte string that enters the nonce: message, aux, and t = bytes(d') xor H_aux(aux)
@@ -98,7 +100,8 @@ def cases(ctx):
         muts.append(('key>=p', msg, (P + 5).to_bytes(32, 'big'), sig))
         for kind, m, k, s in muts:
             ctx.count('verify-' + kind)
-            yield Case(f'schnorr_verify {hx(m)} {hx(k)} {hx(s)}', 'ms', nontrivial=kind != 'valid', tag='verify-' + kind,
+            gv = 'gms' if (msg, d, aux) in sigs[:ctx.n(2, 12)] else 'ms'
+            yield Case(f'schnorr_verify {hx(m)} {hx(k)} {hx(s)}', gv, nontrivial=kind != 'valid', tag='verify-' + kind,
                        spec=lambda ans, m=m, k=k, s=s: (f's:bip340_verify {hx(m)} {hx(k)} {hx(s)}', ans))
     yield Case(f'schnorr_verify {hx(bytes(32))} {hx(bytes(33))} {hx(bytes(64))}', 'm', nontrivial=True, tag='verify-badlen', domain=False)
     for sk in (1, N - 1, rng.randrange(1, N), 0, N):
